@@ -130,10 +130,15 @@ func (p *parser) ParseConfig(data []byte, fName string) (
 				indent = getIndent()
 			} else {
 				if getIndent() < indent {
+					// First subcommand may have been ignored.
+					first := ""
+					if len(prev.sub) > 0 {
+						first = prev.sub[0].parsed
+					}
 					return nil,
 						fmt.Errorf("Bad indentation in subcommands:\n"+
 							">>%s<<\n>>%s<<",
-							strings.Repeat(" ", indent)+prev.sub[0].parsed, line)
+							strings.Repeat(" ", indent)+first, line)
 				}
 			}
 			line = line[indent:]
@@ -591,8 +596,12 @@ func postprocessParsed(lookup objLookup) {
 		if len(l) > 1 {
 			for _, c := range l[1:] {
 				words := strings.Split(c.parsed, " ")
+				// Ignore incomplete command.
+				if len(words) < 4 {
+					continue
+				}
 				// Strip (interface-name)
-				if words[2][0] == '(' {
+				if words[2] != "" && words[2][0] == '(' {
 					copy(words[2:], words[3:])
 				}
 				if words[2] == "host" {
